@@ -867,7 +867,7 @@ func (s *Server) processPublish(cl *Client, pk packets.Packet) error {
 		return s.refusePublish(cl, pk, packets.ErrTopicNameInvalid)
 	}
 
-	if atomic.LoadInt32(&cl.State.Inflight.receiveQuota) == 0 {
+	if pk.FixedHeader.Qos > 0 && atomic.LoadInt32(&cl.State.Inflight.receiveQuota) == 0 { // qos 0 publishes never count towards the receive maximum
 		return s.DisconnectClient(cl, packets.ErrReceiveMaximum) // ~[MQTT-3.3.4-7] ~[MQTT-3.3.4-8]
 	}
 
